@@ -18,8 +18,10 @@ import (
 	"os"
 	"os/signal"
 	"path/filepath"
+	"runtime"
 	"sort"
 	"sync"
+	"sync/atomic"
 	"syscall"
 
 	"github.com/tailscale/setec/acl"
@@ -369,6 +371,14 @@ type Sys struct {
 
 	// AfterCall, if set, is called by Do after every call with the audit bytes the call wrote.
 	AfterCall func(c Call, sinkBytes []byte)
+
+	// ParkWrites (concurrent histories through the handlers): every other request pauses at the moment its handler
+	// starts to deliver the reply (first WriteHeader / Write) until some other request has completed or ~1.5 ms have
+	// passed -- a slow client connection. It widens the window between computing a reply and delivering it, the way
+	// SlowSync widens the audit window.
+	ParkWrites bool
+	reqSeq     atomic.Int64
+	doneReqs   atomic.Int64
 
 	AuditBroken bool // an injected audit write failure has latched the real encoder's error
 	ObserveCopy bool // observe the persisted state on a copy of the file; the live instance sees only the history's calls
@@ -725,13 +735,41 @@ func (s *Sys) doDB(c Call, name string, val []byte, out *Outcome) error {
 	return fmt.Errorf("harness: unknown op %q", c.Op)
 }
 
+type parkWriter struct {
+	http.ResponseWriter
+	s      *Sys
+	park   bool
+	parked bool
+}
+
+func (p *parkWriter) pause() {
+	if !p.park || p.parked {
+		return
+	}
+	p.parked = true
+	n0, t0 := p.s.doneReqs.Load(), time.Now()
+	for p.s.doneReqs.Load() == n0 && time.Since(t0) < 1500*time.Microsecond {
+		runtime.Gosched()
+	}
+}
+func (p *parkWriter) WriteHeader(code int) { p.pause(); p.ResponseWriter.WriteHeader(code) }
+func (p *parkWriter) Write(b []byte) (int, error) {
+	p.pause()
+	return p.ResponseWriter.Write(b)
+}
+
 // doHTTP drives the same call through the registered handlers with the real client.
 func (s *Sys) doHTTP(c Call, name string, val []byte, out *Outcome) error {
 	addr := s.addrFor(c.Who, s.aclRules(c.Rules))
 	cl := setec.Client{Server: "http://setec.test", DoHTTP: func(r *http.Request) (*http.Response, error) {
 		r.RemoteAddr = addr
 		rec := httptest.NewRecorder()
-		s.Mux.ServeHTTP(rec, r)
+		if s.ParkWrites {
+			s.Mux.ServeHTTP(&parkWriter{ResponseWriter: rec, s: s, park: s.reqSeq.Add(1)%2 == 0}, r)
+			s.doneReqs.Add(1)
+		} else {
+			s.Mux.ServeHTTP(rec, r)
+		}
 		res := rec.Result()
 		b, _ := io.ReadAll(res.Body)
 		out.Status, out.Body = res.StatusCode, b
